@@ -77,7 +77,11 @@ def column(c):
             return lst.decode('latin1')
         return [b.decode('latin1') for b in lst]
     if isinstance(c, EncodedRaggedArray):
-        flat = c.ravel()
+        try:
+            flat = c.ravel()
+        except Exception as e:
+            # flattening a ragged array the library returned fails: its shape and data are inconsistent
+            raise MalformedLibraryValue('ragged array cannot be flattened: %s: %s' % (type(e).__name__, str(e)[:120]))
         lengths = _lengths_of(c._shape)
         if flat.encoding.is_one_to_one_encoding():
             codes = decode_flat(flat)
